@@ -94,6 +94,34 @@ fn widen(rng: &mut Rng, t: &AType, n_changed: &mut usize) -> AType {
     }
 }
 
+/// first difference between the significant tokens of two texts; numbers are compared by value
+/// (5 and 5.0 are the same content), everything else by kind and text
+fn token_value_diff(a: &str, b: &str) -> Option<String> {
+    use vcommon::doc::Val;
+    use vcommon::lexer::{lex, LK};
+    let (Ok(ta), Ok(tb)) = (lex(a), lex(b)) else {
+        return Some("written text cannot be tokenised".into());
+    };
+    let sig = |t: &vcommon::lexer::LTok| !matches!(t.kind, LK::Comment);
+    let ta: Vec<_> = ta.iter().filter(|t| sig(t)).collect();
+    let tb: Vec<_> = tb.iter().filter(|t| sig(t)).collect();
+    for (x, y) in ta.iter().zip(tb.iter()) {
+        let same = match (&x.val, &y.val) {
+            (Val::Int(p), Val::Int(q)) => p == q,
+            (Val::Float(p), Val::Float(q)) => p == q,
+            (Val::Int(p), Val::Float(q)) | (Val::Float(q), Val::Int(p)) => (*p as f64) == *q,
+            _ => x.kind == y.kind && x.val == y.val,
+        };
+        if !same {
+            return Some(format!("token `{}` (line {}) became `{}`", x.text, x.line, y.text));
+        }
+    }
+    if ta.len() != tb.len() {
+        return Some(format!("{} tokens became {}", ta.len(), tb.len()));
+    }
+    None
+}
+
 /// structural mutations: the result describes a different shape than the specification
 fn mutate(rng: &mut Rng, t: &AType, changed: &mut Vec<&'static str>) -> AType {
     match t {
@@ -463,7 +491,9 @@ macro_rules! spec_runner {
                     rec.bump("mismatch.document_rejected");
                     continue;
                 };
-                for ifd in ma.project.module[0].if_data.iter() {
+                let mut stored_m = ma.clone();
+                let mut any_stored = false;
+                for (bi, ifd) in ma.project.module[0].if_data.iter().enumerate() {
                     if !ifd.ifdata_valid {
                         rec.bump("mismatch.not_valid_under_mutated_definition");
                         continue;
@@ -478,8 +508,34 @@ macro_rules! spec_runner {
                             &format!("{detail}; shape changes: {changed:?}"),
                             witness_text("C19 shape mismatch", &mrendered, $label),
                         ),
-                        Ok(Some(_)) => rec.bump("mismatch.result.Some"),
+                        Ok(Some(x)) => {
+                            rec.bump("mismatch.result.Some");
+                            if guarded(|| x.store_to_ifdata(&mut stored_m.project.module[0].if_data[bi])).is_ok() {
+                                any_stored = true;
+                            }
+                        }
                         Ok(None) => rec.bump("mismatch.result.None"),
+                    }
+                }
+                // a value that was decoded although the shape differs must at least hold the whole
+                // content: stored back and written, no token may be lost or changed (numbers are
+                // compared by value)
+                // judged for the mismatch classes the property names (shorter arrays, other scalar
+                // types, missing members): there every difference makes an accessor fail, so a value is
+                // only produced for data that does not reach the changed part. Definitions that merely
+                // hold more than the specification (extra members, other block form, ...) are decoded
+                // leniently by design and are not judged.
+                const JUDGED: [&str; 7] = ["shorter_array", "other_scalar_type", "scalar_to_string", "string_to_scalar", "array_to_scalar", "enum_to_scalar", "missing_struct_member"];
+                if any_stored && changed.iter().all(|c| JUDGED.contains(c)) {
+                    if let (Ok(before), Ok(after)) = (write(&ma), write(&stored_m)) {
+                        rec.bump("mismatch.store_back_compared");
+                        if let Some(d) = token_value_diff(&before, &after) {
+                            rec.violation(
+                                &format!("IF_DATA of a different shape is decoded to a value that does not hold its content ({})", $label),
+                                &format!("shape changes: {changed:?}; after store_to_ifdata and write: {d}"),
+                                witness_text("C19 shape mismatch", &mrendered, $label),
+                            );
+                        }
                     }
                 }
             }
@@ -493,27 +549,30 @@ spec_runner!(run_s3, specs::s3::SpecThree, specs::s3::SPECTHREE_TEXT, "SpecThree
 spec_runner!(run_s4, specs::s4::SpecFour, specs::s4::SPECFOUR_TEXT, "SpecFour");
 spec_runner!(run_s5, specs::s5::SpecFive, specs::s5::SPECFIVE_TEXT, "SpecFive");
 spec_runner!(run_s6, specs::s6::SpecSix, specs::s6::SPECSIX_TEXT, "SpecSix");
+spec_runner!(run_s7, specs::s7::SpecSeven, specs::s7::SPECSEVEN_TEXT, "SpecSeven");
 
 pub fn run(args: &Args, rec: &mut Recorder) {
-    rec.rule = "evaluation = one IF_DATA block handled through the types generated by a2ml_specification! (six fixed specifications compiled with the in-tree a2lmacros, together using every A2ML construct): instances generated from the generated text constant X_TEXT (read by an independent A2ML reader) must be valid under X_TEXT (as built-in argument and as in-file A2ML), load_from_ifdata must yield a value, store_to_ifdata followed by load_from_ifdata must yield an equal value, and the text written after load+store must hold the original tokens; IF_DATA that is valid under a structurally mutated in-file definition is handed to load_from_ifdata, which must not panic. distinct_nontrivial = distinct documents by content hash".into();
+    rec.rule = "evaluation = one IF_DATA block handled through the types generated by a2ml_specification! (seven fixed specifications compiled with the in-tree a2lmacros, together using every A2ML construct): instances generated from the generated text constant X_TEXT (read by an independent A2ML reader) must be valid under X_TEXT (as built-in argument and as in-file A2ML), load_from_ifdata must yield a value, store_to_ifdata followed by load_from_ifdata must yield an equal value, and the text written after load+store must hold the original tokens; IF_DATA that is valid under a structurally mutated in-file definition is handed to load_from_ifdata, which must not panic, and a value it yields for the mismatch classes named by the property (shorter arrays, other scalar types, missing members) must hold the whole content (store back, write, compare tokens). distinct_nontrivial = distinct documents by content hash".into();
     rec.assumptions.push("the macro's non-standard `ident` member type is not used (its text constant is not A2ML); value equality is the generated PartialEq; the generic trees before and after store are not compared".into());
     let total: u64 = if args.thorough { 2_000_000 } else { 150_000 };
     run_cases(args, rec, total, crate::util::reset_budget, |rng, case, rec| {
-        match case % 6 {
-            0 => run_s1(rng, rec, case / 6),
-            1 => run_s2(rng, rec, case / 6),
-            2 => run_s3(rng, rec, case / 6),
-            3 => run_s4(rng, rec, case / 6),
-            4 => run_s5(rng, rec, case / 6),
-            _ => run_s6(rng, rec, case / 6),
+        match case % 7 {
+            0 => run_s1(rng, rec, case / 7),
+            1 => run_s2(rng, rec, case / 7),
+            2 => run_s3(rng, rec, case / 7),
+            3 => run_s4(rng, rec, case / 7),
+            4 => run_s5(rng, rec, case / 7),
+            5 => run_s6(rng, rec, case / 7),
+            _ => run_s7(rng, rec, case / 7),
         }
         None
     });
-    for s in ["SpecOne", "SpecTwo", "SpecThree", "SpecFour", "SpecFive", "SpecSix"] {
+    for s in ["SpecOne", "SpecTwo", "SpecThree", "SpecFour", "SpecFive", "SpecSix", "SpecSeven"] {
         rec.floor(&format!("spec.{s}"), 10);
     }
     rec.floor("instances.conforming", 100);
     rec.floor("store_unchanged.text_compared", 10);
+    rec.floor("mismatch.store_back_compared", 20);
     rec.floor("update_a2ml.cases", 5);
     rec.floor("builtin_first.cases", 5);
     rec.floor("definition.in_file(X_TEXT in A2ML block)", 10);
